@@ -690,4 +690,51 @@ def parseUserGuide (s : String) : Option UserGuide :=
   | [] => some es
   | _ => none
 
+/-! ## the range of numerals (`isize`) and arities (`usize`): checked after the grammar has accepted the text -/
+
+def isizeFits (n : Int) : Bool := decide (-9223372036854775808 ≤ n) && decide (n ≤ 9223372036854775807)
+def usizeFits (n : Nat) : Bool := decide (n ≤ 18446744073709551615)
+
+def itermInRange : ITerm → Bool
+  | .num n => isizeFits n
+  | .fc _ | .var _ => true
+  | .neg t => itermInRange t
+  | .bin _ l r => itermInRange l && itermInRange r
+
+def gtermInRange : GTerm → Bool
+  | .int t => itermInRange t
+  | _ => true
+
+def atomicInRange : AtomicF → Bool
+  | .atom a => a.args.all gtermInRange
+  | .cmp t gs => gtermInRange t && gs.all fun g => gtermInRange g.term
+  | _ => true
+
+def formulaInRange : Formula → Bool
+  | .atomic a => atomicInRange a
+  | .not f => formulaInRange f
+  | .bin _ l r => formulaInRange l && formulaInRange r
+  | .quant _ _ f => formulaInRange f
+
+def ugEntryInRange : UGEntry → Bool
+  | .input p | .output p => usizeFits p.arity
+  | .placeholder _ _ => true
+  | .formula a => formulaInRange a.formula
+
+/-- the parsers since the numeral-range fix: accepted by the grammar and every number fits -/
+def parseTheoryChecked (s : String) : Option Theory :=
+  match parseTheory s with
+  | some t => if t.all formulaInRange then some t else none
+  | none => none
+
+def parseSpecificationChecked (s : String) : Option Specification :=
+  match parseSpecification s with
+  | some t => if t.all (fun a => formulaInRange a.formula) then some t else none
+  | none => none
+
+def parseUserGuideChecked (s : String) : Option UserGuide :=
+  match parseUserGuide s with
+  | some u => if u.all ugEntryInRange then some u else none
+  | none => none
+
 end Anthem.Fol
